@@ -82,13 +82,15 @@ def generate(rs: int, tier: str, index: int) -> dict:
         if fmt == "%d" and kindc != "int":
             fmt = "%.18e"
         step.update({
-            "fmt": fmt, "delimiter": ch.choice([" ", " ", ",", ";", "\t"]), "header": ch.choice(["", "", "a comment", "two\nlines"]),
+            "fmt": fmt, "delimiter": ch.choice([" ", " ", ",", ";", "\t"]), "header": ch.choice(["", "", "a comment", "two\nlines", "has # and , ; inside", "numpoly: not the real header", "trailing space "]),
             "comments": ch.choice(["# ", "# ", "#", "% "]), "spelling": ch.choice(["numpoly", "numpy"]),
             "target": ch.choice(["simtext", "simbytes", "simtext_enc", "simbytes_enc", "path_str", "path_str", "pathlike", "simraw"]),
             "locale": ch.choice(["utf-8", "utf-8", "latin-1", "ascii"]),
             "fault": ch.weighted([(4, None), (3, "write"), (1, "close"), (2, "read"), (2, "full")]),
             "forward_only": ch.chance(0.4),
             "buffered_reader": ch.chance(0.3),
+            "newline": ch.choice(["\n", "\n", "\n", "\r\n"]),
+            "footer": ch.choice(["", "", "", "the end", "\n"]),
         })
     else:
         rows, cols = ch.between(1, 4), ch.between(1, 3)
@@ -308,6 +310,10 @@ class Runner:
         kind = step["target"]
         where = {"target": "stream" if kind.startswith("sim") else "path"}
         save_kw = {"fmt": step["fmt"], "delimiter": step["delimiter"], "header": step["header"], "comments": step["comments"]}
+        if step.get("newline", "\n") != "\n":
+            save_kw["newline"] = step["newline"]
+        if step.get("footer"):
+            save_kw["footer"] = step["footer"]
         load_kw = {"delimiter": None if step["delimiter"] == " " else step["delimiter"], "comments": step["comments"]}
         saver = numpoly.savetxt if step["spelling"] == "numpoly" else numpy.savetxt
         tol = _tol(step["fmt"])
@@ -524,7 +530,7 @@ def simplify(plan: dict):
     if step.get("view") and step["view"] != "none":
         yield dict(plan, steps=[dict(step, view="none")])
     if step["k"] == "text":
-        for key, simple in (("header", ""), ("comments", "# "), ("delimiter", " "), ("fmt", "%.18e"), ("locale", "utf-8"), ("spelling", "numpoly"), ("fault", None)):
+        for key, simple in (("header", ""), ("comments", "# "), ("delimiter", " "), ("fmt", "%.18e"), ("locale", "utf-8"), ("spelling", "numpoly"), ("fault", None), ("newline", "\n"), ("footer", ""), ("buffered_reader", False), ("forward_only", False)):
             if step.get(key) != simple:
                 yield dict(plan, steps=[dict(step, **{key: simple})])
     if "p" in step:
